@@ -441,7 +441,7 @@ func report(cr *checkRun, seed int, start time.Time) int {
 		fmt.Printf("BROKEN-CHECK no obligations generated for %s\n", prop)
 		exit = 2
 	}
-	os.MkdirAll(filepath.Join(verifDir, "out", "replay"), 0o755)
+	os.MkdirAll(filepath.Join(outDir(), "out", "replay"), 0o755)
 	claimed, discharged := 0, 0
 	violations := 0
 	var kfObls []map[string]interface{}
@@ -513,7 +513,7 @@ func report(cr *checkRun, seed int, start time.Time) int {
 		}
 		boundedEv = append(boundedEv, map[string]interface{}{"name": br.Spec.Name, "label": "bounded (not proved)", "cases": br.Cases, "failing": br.Failing, "bound": br.Spec.Bound, "secs": round3(br.Secs), "exhaustive_within_bound": true})
 		if br.Failing > 0 {
-			file := filepath.Join(verifDir, "out", "replay", sanitizeFile("bounded__"+br.Spec.Name)+".json")
+			file := filepath.Join(outDir(), "out", "replay", sanitizeFile("bounded__"+br.Spec.Name)+".json")
 			rep := map[string]interface{}{"property": prop, "bounded_check": br.Spec.Name, "bound": br.Spec.Bound, "failing_cases": br.Failing, "first_failing_inputs": br.Violations,
 				"replay_cmd": "/verif/tools/replay.sh /repo " + br.Spec.Pkg + " '" + br.Spec.Run + "' " + filepath.Join(verifDir, "bounded", br.Spec.Files[0])}
 			b, _ := json.MarshalIndent(rep, "", " ")
@@ -585,9 +585,9 @@ func report(cr *checkRun, seed int, start time.Time) int {
 		"wall_s":      round3(time.Since(start).Seconds()),
 		"violations":  violations,
 	}
-	os.MkdirAll(filepath.Join(verifDir, "evidence"), 0o755)
+	os.MkdirAll(filepath.Join(outDir(), "evidence"), 0o755)
 	b, _ := json.MarshalIndent(ev, "", " ")
-	os.WriteFile(filepath.Join(verifDir, "evidence", prop+".json"), append(b, '\n'), 0o644)
+	os.WriteFile(filepath.Join(outDir(), "evidence", prop+".json"), append(b, '\n'), 0o644)
 	fmt.Printf("%s: %d/%d claimed obligations discharged, %d known-finding obligations, %d violations, %.1fs\n", prop, discharged, claimed, len(kfObls), violations, time.Since(start).Seconds())
 	if exit == 0 && claimed != discharged {
 		// cannot happen without a violation line, but never report success on an undischarged claim
@@ -601,7 +601,7 @@ func round3(f float64) float64 { return float64(int(f*1000+0.5)) / 1000 }
 
 func writeReplay(cr *checkRun, r *OblResult, sr *SiteResult) string {
 	name := r.Obl.Name()
-	file := filepath.Join(verifDir, "out", "replay", sanitizeFile(name+"__"+sr.Site.Sig)+".json")
+	file := filepath.Join(outDir(), "out", "replay", sanitizeFile(name+"__"+sr.Site.Sig)+".json")
 	rep := map[string]interface{}{
 		"property":      cr.prop,
 		"obligation":    name,
@@ -722,4 +722,13 @@ func topName(tr *Tr) string {
 		return "lemma"
 	}
 	return tr.top.String()
+}
+
+// outDir: where evidence and replay files go (/verif; scratch evaluations of seeded changes redirect it with STFS_OUT so
+// that they never overwrite the evidence of the real tree).
+func outDir() string {
+	if d := os.Getenv("STFS_OUT"); d != "" {
+		return d
+	}
+	return verifDir
 }
